@@ -6,7 +6,7 @@ from ..oracles import refgrammar as G
 from ..oracles import shadow as S
 
 MANIFEST = dict(
-    technique="runtime contracts on every problem generator and helper (entry: RNG seed, parameters, number mode; exit: no exception, text accepted by a fresh parser, positive integer complexity, promised like-term pair present by an independent definition, distinctness/exclusion of variable sets, split sums); seed x parameter-grid x number-mode workload",
+    technique="runtime contracts on every problem generator and helper (entry: RNG seed, parameters, number mode; exit: no exception, text accepted by a fresh parser, positive integer complexity, promised like-term pair present by an independent definition, distinctness/exclusion of variable sets, split sums); seed x parameter-grid x number-mode workload, a sequential seed sweep of plain calls, and an injected random source answering legal but unlikely draws",
     text="Every generator call over thousands of seeds, parameter grids inside the documented ranges and both number modes is decided at exit of the real function; 'has like terms' is decided by an independent reading of the parsed text (two addends with the same variable multiset and exponent), and helper laws (distinct variables, exclusions respected, split sums) by their definitions. Held on the calls observed; the known default-argument failure of gen_combine_terms_in_place is recorded as a finding.",
     note="'Documented ranges' = default calls, the calls made by the repository's tests/docs and grids around them (DESIGN.md 3/C17). Trusts the repository's parser as acceptance oracle (its grammar conformance is C03).",
     ref="DESIGN.md 3/C17",
@@ -15,12 +15,14 @@ RULE = (
     "W2: every gen_* with seeds x parameter grids (term counts 2..12, combine up to 22, blockers 1..10, max_vars within the template's "
     "slots, probabilities in [0,1], op in None/+/-/*/lists) x use_pretty_numbers(True/False); helpers get_rand_vars, "
     "get_rand_term_templates, split_in_two_random, rand_number.  distinct non-trivial = (generator, parameters, seed, mode) "
-    "whose output was parsed and checked."
+    "whose output was parsed and checked.  Every monitored call is made under the ordinary seeded source and again under "
+    "an injected source (12% of the draws answered with an end of the requested range, its neighbour, -1/0/1/2, 0.0 or the largest float below 1); "
+    "a sequential sweep of 130 000 seeds per case (2.5M thorough) of plain calls decides 'returns (text, positive int) without raising'."
 )
 ASSUMPTIONS = ["like-term promise is checked by an independent definition: two top-level addends (through + and -, and inside the grouping parentheses) "
                "with equal variable multiset and equal exponent", "requests to get_rand_vars that exceed the pool after exclusions are expected to raise ValueError"]
 SHARDS = {"quick": 8, "thorough": 16}
-DEADLINE = {"quick": 50, "thorough": 420}
+DEADLINE = {"quick": 60, "thorough": 420}
 GENS = ["gen_binomial_times_binomial", "gen_binomial_times_monomial", "gen_simplify_multiple_terms", "gen_combine_terms_in_place", "gen_commute_haystack",
         "gen_move_around_blockers_one", "gen_move_around_blockers_two"]
 PROMISE_LIKE = {"gen_combine_terms_in_place", "gen_commute_haystack", "gen_move_around_blockers_one", "gen_move_around_blockers_two"}
@@ -28,6 +30,8 @@ PROMISE_LIKE = {"gen_combine_terms_in_place", "gen_commute_haystack", "gen_move_
 
 def REQUIRED(tier):
     req = {}
+    req["gen:plain-bulk-calls"] = 10000
+    req["gen:unlikely-draws-injected"] = 10000
     for g in GENS:
         for mode in ("pretty", "full"):
             req[f"gen:{g}:{mode}"] = 100
@@ -426,7 +430,7 @@ def run(rec, cfg):
     state = random.getstate()
     try:
         for i in range(n):
-            if cfg.out_of_time():
+            if cfg.elapsed() > 0.6 * cfg.deadline_s:     # the rest of the budget belongs to the seed sweep
                 rec.truncated = True
                 break
             for name, a, k in calls(rng):
